@@ -282,7 +282,7 @@ def globref_unsupported():
 
 def main(tier, seed, cases=None):
     build.build_rel()
-    n = cases or (1500 if tier == "quick" else 10000)
+    n = cases or (3000 if tier == "quick" else 12000)
     chk = common.Check("C09", "exploration", tier, seed, RULE,
                        ["reference walk fcv/scanref.py and glob reference fcv/globref.py written from README/--help",
                         "ignore files restricted to literal names, *.ext and dir/ rules; regexes to a subset where Python re and Rust regex agree"])
